@@ -242,8 +242,16 @@ def header_ops(sym, op, N, hk, ragged):
     table = [hdr] + rows
     data = [tuple(r) for r in rows]                  # header functions never touch data rows
     if op == 'rename':
-        form = sym.choice('form', 4)
-        if form == 0:
+        form = sym.choice('form', 6)
+        if form == 4 and hk == 'abc':
+            got = _out(petl.rename(table, {'a': 'b', 'b': 'a'}))
+            oh = ['b', 'a', 'c']
+        elif form == 5 and hk == 'abc':
+            got = _out(petl.rename(table, {0: 'c', 'c': 'd'}))
+            oh = ['c', 'b', 'd']
+        elif form >= 4:
+            return
+        elif form == 0:
             got = _out(petl.rename(table, hdr[0], 'X'))
             oh = ['X' if f == hdr[0] else f for f in hdr]
         elif form == 1:
